@@ -159,7 +159,7 @@ int main() {}
                                'the count chrono computes for the same operands', functions_under_contract=('au::operator+(QLike, Quantity)', 'au::operator-(Quantity, QLike)')))
     # ---- sums and differences with DIFFERENT reps on the two sides (the duration's rep narrower and unsigned, or narrower and signed): each operand is widened to the common rep
     #      before anything else happens to it, exactly as chrono does
-    for (rq, rd, per) in (('i64', 'u32', 'sec'), ('i64', 'u16', 'milli'), ('i32', 'i16', 'sec'), ('u64', 'u32', 'sec')) + ((('i64', 'i32', 'min'), ('u32', 'u8', 'sec')) if tier == 'thorough' else ()):
+    for (rq, rd, per) in (('i64', 'u32', 'sec'), ('i64', 'u16', 'milli'), ('i32', 'i16', 'sec'), ('u64', 'u32', 'sec'), ('i32', 'i64', 'sec'), ('u16', 'i64', 'milli')) + ((('i64', 'i32', 'min'), ('u32', 'u8', 'sec')) if tier == 'thorough' else ()):
         cq, cd = G.ctype(rq), G.ctype(rd)
         CRr = G.common(rq, rd); ccr = G.ctype(CRr)
         tag = '%s_%s_%s' % (rq, rd, per)
@@ -174,6 +174,9 @@ int main() {}
             ws += [wa, wc]
             checks.append('  CHECK(%s(a, b) == %s(a, b), "%s-agrees-with-chrono");' % (wa.name, wc.name, nm))
         bnd = '(b >= %s && b <= 1000000000)' % ('0' if not G.REPS[rq]['signed'] else '-1000000000')
+        if G.REPS[rd]['bits'] > G.REPS[rq]['bits']:
+            # the DURATION has the wider rep (the quantity must be widened, never the duration narrowed): the duration is bounded so that chrono's own arithmetic stays in range
+            bnd = '(a >= -1000000000000LL && a <= 1000000000000LL)'
         # the six comparisons, both operand orders, against chrono's own mixed-rep comparison
         for n_, op_ in (('eq', '=='), ('ne', '!='), ('lt', '<'), ('le', '<='), ('gt', '>'), ('ge', '>=')):
             for side, au_e, ch_e in (('dq', '%s{a} %s %s' % (DD, op_, Q), '%s{a} %s %s{b}' % (DD, op_, DQ)), ('qd', '%s %s %s{a}' % (Q, op_, DD), '%s{b} %s %s{a}' % (DQ, op_, DD))):
